@@ -9,8 +9,8 @@ const SPEC: Spec = Spec {
         "moduli/bases/exponents come from the stated finite families built around the branch points (odd/even modulus, base longer than modulus, zero 4-bit windows, zero low exponent digits, top digit 1/3/2^63/2^64-1)",
         "refint modpow/gcd (shift-subtract division) is trusted; cross-checked against Python pow()/gcd on a transcript slice",
     ],
-    bounds_quick: "P1 moduli Dense(S8,2)+40 three-digit x ~35 bases per modulus x 25 exponents (<= 3 digits); P2 BigInt sign pairs on every 2nd modulus x 20 bases x 25 exponents; P3 panic clauses; I1 all (b,m) in [-200,200]^2; I2 Dense(S8,3)xDense(S8,2) x 4 sign pairs; I3 zero modulus",
-    bounds_thorough: "P1 moduli as quick + all 3-digit Dense(S8,3) + 72 patterned 4/5/8-digit moduli (odd and even) x ~35 bases x 25 exponents; P2 all moduli x 40 bases x 25 exponents x 4 sign pairs; P3; I1 [-1000,1000]^2; I2 Dense(S8,4)xDense(S8,2) x 4 sign pairs; I3",
+    bounds_quick: "P1 moduli Dense(S8,2)+40 three-digit x ~35 bases per modulus x 25 exponents (<= 3 digits); P2 BigInt sign pairs on every 2nd modulus x 20 bases x 25 exponents; P3 panic clauses; I1 all (b,m) in [-200,200]^2; I2 Dense(S8,3)xDense(S8,2) x 4 sign pairs; I3 zero modulus; P5 exponents of 17/34/40 digits (up to 2560 bits) x 6 small moduli x 3 shapes, moduli of 33/40 digits (odd and even) x 3 base/exponent shapes, BigUint and negative BigInt forms",
+    bounds_thorough: "P1 moduli as quick + all 3-digit Dense(S8,3) + 72 patterned 4/5/8-digit moduli (odd and even) x ~35 bases x 25 exponents; P2 all moduli x 40 bases x 25 exponents x 4 sign pairs; P3; I1 [-1000,1000]^2; I2 Dense(S8,4)xDense(S8,2) x 4 sign pairs; I3; P5 exponents and moduli up to 130 digits",
     hang_secs: 120,
     probes: Some(probes),
     max_workers: 16,
@@ -219,6 +219,56 @@ fn body(ctx: &mut Ctx) {
                     }
                     ctx.sample(|| format!("dense LCG modulus of {} digits ({}), bases of 4 lengths, exponents of 1..3 digits", lm, if odd { "odd" } else { "even" }));
                 }
+            }
+        }
+    }
+    // ---- P5 long exponents (thousands of exponent bits) and long moduli
+    if ctx.space("P5") {
+        let mut cases: Vec<(Vec<u64>, Vec<u64>, Vec<u64>)> = Vec::new(); // (modulus, base, exponent)
+        let les: Vec<usize> = tier.pick(vec![17, 34, 40], vec![17, 33, 34, 40, 70, 130]);
+        for &le in &les {
+            for (mi, md) in [vec![0xFFFF_FFFF_FFFF_FFC5u64], vec![6], vec![alpha::M, 5], vec![3, 0, alpha::H], vec![0, 2], vec![4, alpha::M, 9]].into_iter().enumerate() {
+                let mut e1 = alpha::lcg_digits(le, 7 + mi as u64);
+                e1[le - 1] |= 1;
+                cases.push((md.clone(), alpha::lcg_digits(md.len() + 1, 3), e1));
+                cases.push((md.clone(), vec![2], vec![alpha::M; le]));
+                let mut e3 = vec![0u64; le];
+                e3[le - 1] = 1;
+                cases.push((md, vec![alpha::M], e3));
+            }
+        }
+        let lms: Vec<usize> = tier.pick(vec![33, 40], vec![33, 40, 70, 130]);
+        for &lm in &lms {
+            for odd in [true, false] {
+                let mut md = alpha::lcg_digits(lm, 21);
+                if odd {
+                    md[0] |= 1;
+                } else {
+                    md[0] &= !1;
+                }
+                cases.push((md.clone(), alpha::lcg_digits(lm, 22), vec![0x1_0000_0001]));
+                cases.push((md.clone(), alpha::lcg_digits(lm + 2, 23), vec![0, 1]));
+                cases.push((md, vec![3], alpha::lcg_digits(2, 24)));
+            }
+        }
+        for (o, (md, bd, ed)) in cases.iter().enumerate() {
+            if !ctx.mine(o as u64) {
+                continue;
+            }
+            let (m, b, e) = (Nat::from_digits(md), Nat::from_digits(bd), Nat::from_digits(ed));
+            modpow_case(ctx, &b, &e, &m, &bu_nat(&b), &bu_nat(&e), &bu_nat(&m));
+            // BigInt form: negative base, negative modulus (floor-mod representative carries the sign of m)
+            let want = b.modpow(&e, &m);
+            let args = || vec![format!("b=-{}", b.to_hex()), format!("e={}", e.to_hex()), format!("m=-{}", m.to_hex())];
+            let wneg = if e.is_even() { Int::from_nat(want.clone()) } else { Int::new(true, want.clone()) }; // (-b)^e mod m, truncated
+            // floor-mod with modulus -m: representative in (-m, 0]
+            let wi = {
+                wneg.divrem_floor(&Int::new(true, m.clone())).1
+            };
+            let r = call(ctx, || (-BigInt::from(bu_nat(&b))).modpow(&BigInt::from(bu_nat(&e)), &-BigInt::from(bu_nat(&m))));
+            expect_int(ctx, "BigInt modpow (-b, e, -m)", &args, r, &wi);
+            if o % 9 == 0 {
+                ctx.sample(|| format!("modulus of {} digits, base of {} digits, exponent of {} digits ({} bits)", md.len(), bd.len(), ed.len(), e.bits()));
             }
         }
     }
